@@ -39,7 +39,7 @@ func c01(args []string) int {
 		L = 3
 	}
 	nExh := gen.NClassStrings(L)
-	total := nExh + f.N(60000, 3000000)
+	total := nExh + f.N(200000, 12000000)
 	var hits [9]map[string]int
 	x := &gen.Exec{}
 	for idx := 0; idx < total; idx++ {
